@@ -424,7 +424,7 @@ func (s *simscreen) SetSize(w, h int) {
 	s.cursorx, s.cursory = -1, -1
 	s.physw, s.physh = w, h
 	s.front = newc
-	s.back.Resize(w, h)
+	s.resize()
 	s.Unlock()
 }
 
